@@ -63,6 +63,10 @@ impl log::Log for CountingLogger {
 				break
 			}
 		}
+		if s.starts_with("Deferred commit") {
+			// (classification of what follows only; the message is not an oracle)
+			exec::DEFERRAL_SEEN.store(true, Ordering::SeqCst);
+		}
 		if VERBOSE_LOG.load(Ordering::Relaxed) != 0 {
 			simdisk::muted(|| eprintln!("[pdb {}] {}", record.level(), record.args()));
 		}
@@ -233,13 +237,16 @@ pub fn run_once(cfg: &RunCfg, ops: &[Op], base: &str) -> Outcome {
 		if cur != op_seen {
 			op_seen = cur;
 			op_start = std::time::Instant::now();
-		} else if op_start.elapsed().as_secs() > OP_LIMIT.load(Ordering::Relaxed) && cur != usize::MAX {
+		} else if cur != usize::MAX &&
+			op_start.elapsed().as_secs() >
+				(if exec::DEFERRAL_SEEN.load(Ordering::SeqCst) { 10 } else { OP_LIMIT.load(Ordering::Relaxed) })
+		{
 			return Outcome {
 				result: RunResult {
 					violations: vec![Violation {
-						prop: crash_prop_for(&cfg.scenario).to_string(),
-						class: "no-return".to_string(),
-						detail: format!("the call of op {cur} has kept the only thread of the run busy for more than {OP_WALL_LIMIT_SECS} s without returning"),
+						prop: if exec::DEFERRAL_SEEN.load(Ordering::SeqCst) { "C11".to_string() } else { crash_prop_for(&cfg.scenario).to_string() },
+						class: if exec::DEFERRAL_SEEN.load(Ordering::SeqCst) { "after-deferral:no-return".to_string() } else { "no-return".to_string() },
+						detail: format!("the call of op {cur} (or the final reopen after it) has kept the only thread of the run busy for more than {} s without returning", op_start.elapsed().as_secs()),
 						op_index: cur,
 					}],
 					stats: Default::default(),
@@ -261,8 +268,8 @@ pub fn run_once(cfg: &RunCfg, ops: &[Op], base: &str) -> Outcome {
 					return Outcome {
 						result: RunResult {
 							violations: vec![Violation {
-								prop: prop.to_string(),
-								class: "blocked-forever".to_string(),
+								prop: if exec::DEFERRAL_SEEN.load(Ordering::SeqCst) { "C11".to_string() } else { prop.to_string() },
+								class: if exec::DEFERRAL_SEEN.load(Ordering::SeqCst) { "after-deferral:blocked-forever".to_string() } else { "blocked-forever".to_string() },
 								detail: format!(
 									"the call of op {op_index} did not return: the only thread of the run has been blocked without using CPU for {BLOCKED_WINDOW_SECS} s and nobody exists to wake it"
 								),
@@ -309,9 +316,10 @@ pub fn run_once(cfg: &RunCfg, ops: &[Op], base: &str) -> Outcome {
 	});
 	if let Some(msg) = &p {
 		let prop = crash_prop_for(&cfg.scenario);
+		let deferred = exec::DEFERRAL_SEEN.load(Ordering::SeqCst);
 		result.violations.push(Violation {
-			prop: prop.to_string(),
-			class: "panic".to_string(),
+			prop: if deferred { "C11".to_string() } else { prop.to_string() },
+			class: if deferred { "after-deferral:panic".to_string() } else { "panic".to_string() },
 			detail: format!("parity-db panicked: {msg}"),
 			op_index: usize::MAX,
 		});
